@@ -184,7 +184,17 @@ def execute(plan):
             ref2 = R.get(k + 2)
             # (finite-difference gradients amplify a one-ulp difference of the first resumed iterate by
             # 1/h ~ 1e8 in the second one: the two-iteration comparison is made with exact gradients only)
-            if verdict == "ok" and newest_is_x and cfg["jac"] == "callable" and ref2 is not None and ref2.result is not None and ref2.result.nfev > ref.result.nfev:
+            same_active = True
+            if verdict == "ok":
+                xa, xr = np.asarray(act.result.x, dtype=float), np.asarray(ref.result.x, dtype=float)
+                same_active = bool(
+                    np.array_equal(xa == problem.lb, xr == problem.lb) and np.array_equal(xa == problem.ub, xr == problem.ub)
+                )
+                if not same_active:
+                    # one ulp decides whether a variable sits exactly on its bound after the first resumed
+                    # iteration: the next iteration then works with another active set (DESIGN 7.4)
+                    stats["nj.active_set_knife_edge"] += 1
+            if verdict == "ok" and same_active and newest_is_x and cfg["jac"] == "callable" and ref2 is not None and ref2.result is not None and ref2.result.nfev > ref.result.nfev:
                 v2, info2, act2 = compare_restart(
                     problem, cfg, blob, np.asarray(ref2.result.x, dtype=float), k + 2, plan["problem"]["pseed"] + 7 * k, stats, ref_act=ref2, rel_step_tol=1e-5,
                     ref_searches_before=len(R[k].ls_log),
